@@ -1,9 +1,884 @@
-//! (validator: next commit)
-use crate::ast::Document;
-use crate::schema::Schema;
-#[derive(Clone, Copy, Debug, PartialEq, Eq, Hash)]
-pub enum Rule { RequiredArguments }
+//! Validation of executable documents: section 5 of the June 2018 specification.
+//!
+//! Every rule of the section is implemented; the [`Rule`] of an error names the subsection.
+//! The validator never panics on any parsed document and any schema built by [`Schema`].
+
+use crate::ast::*;
+use crate::schema::{FieldDef, InputValueDef, Schema, TypeKind};
+use std::collections::{BTreeMap, BTreeSet, HashSet};
+
+#[derive(Clone, Copy, Debug, PartialEq, Eq, Hash, PartialOrd, Ord)]
+pub enum Rule {
+    /// 5.1.1 Executable Definitions
+    ExecutableDefinitions,
+    /// 5.2.1.1 Operation Name Uniqueness
+    UniqueOperationNames,
+    /// 5.2.2.1 Lone Anonymous Operation
+    LoneAnonymousOperation,
+    /// 5.2.3.1 Single root field (subscriptions)
+    SingleFieldSubscriptions,
+    /// The schema has no root type for the operation kind.
+    OperationTypeDefined,
+    /// 5.3.1 Field Selections on Objects, Interfaces, and Unions Types
+    FieldsOnCorrectType,
+    /// 5.3.2 Field Selection Merging
+    OverlappingFieldsCanBeMerged,
+    /// 5.3.3 Leaf Field Selections
+    ScalarLeafs,
+    /// 5.4.1 Argument Names
+    KnownArgumentNames,
+    /// 5.4.2 Argument Uniqueness
+    UniqueArgumentNames,
+    /// 5.4.2.1 Required Arguments
+    RequiredArguments,
+    /// 5.5.1.1 Fragment Name Uniqueness
+    UniqueFragmentNames,
+    /// 5.5.1.2 Fragment Spread Type Existence (and unknown variable types)
+    KnownTypeNames,
+    /// 5.5.1.3 Fragments On Composite Types
+    FragmentsOnCompositeTypes,
+    /// 5.5.1.4 Fragments Must Be Used
+    NoUnusedFragments,
+    /// 5.5.2.1 Fragment spread target defined
+    KnownFragmentNames,
+    /// 5.5.2.2 Fragment spreads must not form cycles
+    NoFragmentCycles,
+    /// 5.5.2.3 Fragment spread is possible
+    PossibleFragmentSpreads,
+    /// 5.6.1 Values of Correct Type, 5.6.2 Input Object Field Names, 5.6.4 Input Object Required Fields
+    ValuesOfCorrectType,
+    /// 5.6.3 Input Object Field Uniqueness
+    UniqueInputFieldNames,
+    /// 5.7.1 Directives Are Defined
+    KnownDirectives,
+    /// 5.7.2 Directives Are In Valid Locations
+    DirectiveLocations,
+    /// 5.7.3 Directives Are Unique Per Location
+    UniqueDirectivesPerLocation,
+    /// 5.8.1 Variable Uniqueness
+    UniqueVariableNames,
+    /// 5.8.2 Variables Are Input Types
+    VariablesAreInputTypes,
+    /// 5.8.3 All Variable Uses Defined
+    NoUndefinedVariables,
+    /// 5.8.4 All Variables Used
+    NoUnusedVariables,
+    /// 5.8.5 All Variable Usages are Allowed
+    VariablesInAllowedPosition,
+}
+
 #[derive(Clone, Debug, PartialEq, Eq)]
-pub struct ValidationError { pub rule: Rule, pub message: String }
-impl ValidationError { pub fn is_unknown_directive(&self) -> bool { false } }
-pub fn validate(_schema: &Schema, _doc: &Document) -> Vec<ValidationError> { vec![] }
+pub struct ValidationError {
+    pub rule: Rule,
+    pub message: String,
+}
+
+impl ValidationError {
+    /// `true` for "directive @x is not defined" (custom client directives are often stripped
+    /// before a document reaches a server; callers may want to list these separately).
+    pub fn is_unknown_directive(&self) -> bool {
+        self.rule == Rule::KnownDirectives
+    }
+}
+
+impl std::fmt::Display for ValidationError {
+    fn fmt(&self, f: &mut std::fmt::Formatter<'_>) -> std::fmt::Result {
+        write!(f, "{:?}: {}", self.rule, self.message)
+    }
+}
+
+/// Validate `doc` against `schema`. Returns all errors found (empty = valid).
+pub fn validate(schema: &Schema, doc: &Document) -> Vec<ValidationError> {
+    let mut cx = Cx { schema, errors: vec![], fragments: BTreeMap::new(), seen_errors: HashSet::new() };
+    cx.run(doc);
+    cx.errors
+}
+
+struct VarUsage<'a> {
+    name: &'a str,
+    /// Expected type at the location; `None` when unknown (undefined field/argument).
+    location_type: Option<Type>,
+    location_has_default: bool,
+    context: String,
+}
+
+struct Cx<'a> {
+    schema: &'a Schema,
+    errors: Vec<ValidationError>,
+    fragments: BTreeMap<&'a str, &'a FragmentDefinition>,
+    seen_errors: HashSet<(Rule, String)>,
+}
+
+/// One field occurrence for the merging rule.
+#[derive(Clone)]
+struct Entry<'a> {
+    parent: Option<&'a str>,
+    field: &'a Field,
+    def: Option<&'a FieldDef>,
+}
+
+impl<'a> Cx<'a> {
+    fn err(&mut self, rule: Rule, message: String) {
+        if self.seen_errors.insert((rule, message.clone())) {
+            self.errors.push(ValidationError { rule, message });
+        }
+    }
+
+    fn run(&mut self, doc: &'a Document) {
+        // 5.1.1
+        for d in &doc.definitions {
+            if !d.is_executable() {
+                self.err(Rule::ExecutableDefinitions, "type system definition in an executable document".into());
+            }
+        }
+        let operations: Vec<&OperationDefinition> = doc
+            .definitions
+            .iter()
+            .filter_map(|d| if let Definition::Operation(o) = d { Some(o) } else { None })
+            .collect();
+        let fragment_defs: Vec<&FragmentDefinition> = doc
+            .definitions
+            .iter()
+            .filter_map(|d| if let Definition::Fragment(o) = d { Some(o) } else { None })
+            .collect();
+        // 5.2.1.1 / 5.2.2.1
+        let mut names = BTreeSet::new();
+        for op in &operations {
+            match &op.name {
+                Some(n) => {
+                    if !names.insert(n.as_str()) {
+                        self.err(Rule::UniqueOperationNames, format!("operation name {n} is used more than once"));
+                    }
+                }
+                None => {
+                    if operations.len() > 1 {
+                        self.err(
+                            Rule::LoneAnonymousOperation,
+                            "an anonymous operation must be the only operation of the document".into(),
+                        );
+                    }
+                }
+            }
+        }
+        // 5.5.1.1
+        for f in &fragment_defs {
+            if self.fragments.insert(f.name.as_str(), f).is_some() {
+                self.err(Rule::UniqueFragmentNames, format!("fragment name {} is used more than once", f.name));
+            }
+        }
+        // fragments: type condition, directives, selections
+        for f in &fragment_defs {
+            self.directives(&f.directives, "FRAGMENT_DEFINITION", &mut vec![]);
+            let parent = self.type_condition(&f.type_condition, &format!("fragment {}", f.name));
+            let mut usages = vec![];
+            self.selection_set(&f.selection_set, parent, &mut usages);
+            // variables inside fragments are checked per operation below
+            if let Some(p) = parent {
+                let entries = self.collect_entries(&f.selection_set, Some(p));
+                let mut memo = HashSet::new();
+                self.fields_in_set_can_merge(&entries, &mut memo);
+            }
+        }
+        // 5.5.2.2
+        self.fragment_cycles(&fragment_defs);
+        // operations
+        let mut used_fragments: BTreeSet<&str> = BTreeSet::new();
+        for op in &operations {
+            self.operation(op, &mut used_fragments);
+        }
+        // 5.5.1.4
+        for f in &fragment_defs {
+            if !used_fragments.contains(f.name.as_str()) {
+                self.err(Rule::NoUnusedFragments, format!("fragment {} is never used", f.name));
+            }
+        }
+    }
+
+    fn type_condition(&mut self, name: &'a str, what: &str) -> Option<&'a str> {
+        match self.schema.kind_of(name) {
+            None => {
+                self.err(Rule::KnownTypeNames, format!("{what}: unknown type {name}"));
+                None
+            }
+            Some(TypeKind::Object | TypeKind::Interface | TypeKind::Union) => Some(name),
+            Some(_) => {
+                self.err(
+                    Rule::FragmentsOnCompositeTypes,
+                    format!("{what}: type condition {name} is not an object, interface or union type"),
+                );
+                None
+            }
+        }
+    }
+
+    fn operation(&mut self, op: &'a OperationDefinition, used_fragments: &mut BTreeSet<&'a str>) {
+        let op_name = op.name.clone().unwrap_or_else(|| "<anonymous>".into());
+        let mut usages: Vec<VarUsage<'a>> = vec![];
+        // 5.8.1, 5.8.2 and default values
+        let mut defs: BTreeMap<&str, &VariableDefinition> = BTreeMap::new();
+        for v in &op.variable_definitions {
+            if defs.insert(v.name.as_str(), v).is_some() {
+                self.err(
+                    Rule::UniqueVariableNames,
+                    format!("operation {op_name}: variable ${} is defined more than once", v.name),
+                );
+            }
+            match self.schema.kind_of(v.ty.inner_name()) {
+                None => self.err(
+                    Rule::KnownTypeNames,
+                    format!("operation {op_name}: variable ${}: unknown type {}", v.name, v.ty.inner_name()),
+                ),
+                Some(TypeKind::Scalar | TypeKind::Enum | TypeKind::InputObject) => {
+                    if let Some(d) = &v.default_value {
+                        let mut none = vec![];
+                        self.value(d, &v.ty, false, &format!("default value of ${}", v.name), &mut none);
+                    }
+                }
+                Some(_) => self.err(
+                    Rule::VariablesAreInputTypes,
+                    format!("operation {op_name}: variable ${} has the non-input type {}", v.name, v.ty),
+                ),
+            }
+            self.directives(&v.directives, "VARIABLE_DEFINITION", &mut usages);
+        }
+        let loc = match op.kind {
+            OperationKind::Query => "QUERY",
+            OperationKind::Mutation => "MUTATION",
+            OperationKind::Subscription => "SUBSCRIPTION",
+        };
+        self.directives(&op.directives, loc, &mut usages);
+        let root = self.schema.root_type(op.kind);
+        if root.is_none() {
+            self.err(
+                Rule::OperationTypeDefined,
+                format!("operation {op_name}: the schema defines no {} root type", op.kind.as_str()),
+            );
+        }
+        self.selection_set(&op.selection_set, root, &mut usages);
+        // usages inside (transitively) spread fragments
+        let mut visited: BTreeSet<&str> = BTreeSet::new();
+        let mut stack: Vec<&'a SelectionSet> = vec![&op.selection_set];
+        while let Some(s) = stack.pop() {
+            for name in spreads_in(s) {
+                if visited.insert(name) {
+                    used_fragments.insert(name);
+                    if let Some(f) = self.fragments.get(name).copied() {
+                        let parent = match self.schema.kind_of(&f.type_condition) {
+                            Some(TypeKind::Object | TypeKind::Interface | TypeKind::Union) => {
+                                Some(f.type_condition.as_str())
+                            }
+                            _ => None,
+                        };
+                        let mut quiet = Cx {
+                            schema: self.schema,
+                            errors: vec![],
+                            fragments: self.fragments.clone(),
+                            seen_errors: HashSet::new(),
+                        };
+                        quiet.directives(&f.directives, "FRAGMENT_DEFINITION", &mut usages);
+                        quiet.selection_set(&f.selection_set, parent, &mut usages);
+                        stack.push(&f.selection_set);
+                    }
+                }
+            }
+        }
+        // 5.8.3, 5.8.5
+        let mut used: BTreeSet<&str> = BTreeSet::new();
+        for u in &usages {
+            used.insert(u.name);
+            let Some(def) = defs.get(u.name) else {
+                self.err(
+                    Rule::NoUndefinedVariables,
+                    format!("operation {op_name}: variable ${} ({}) is not defined", u.name, u.context),
+                );
+                continue;
+            };
+            if let Some(lt) = &u.location_type {
+                if !self.schema.is_input_type(&def.ty) {
+                    continue;
+                }
+                if !variable_usage_allowed(def, lt, u.location_has_default) {
+                    self.err(
+                        Rule::VariablesInAllowedPosition,
+                        format!(
+                            "operation {op_name}: variable ${} of type {} used in position expecting {} ({})",
+                            u.name, def.ty, lt, u.context
+                        ),
+                    );
+                }
+            }
+        }
+        // 5.8.4
+        for v in &op.variable_definitions {
+            if !used.contains(v.name.as_str()) {
+                self.err(Rule::NoUnusedVariables, format!("operation {op_name}: variable ${} is never used", v.name));
+            }
+        }
+        // 5.3.2
+        if root.is_some() {
+            let entries = self.collect_entries(&op.selection_set, root);
+            let mut memo = HashSet::new();
+            self.fields_in_set_can_merge(&entries, &mut memo);
+            // 5.2.3.1
+            if op.kind == OperationKind::Subscription {
+                let keys: BTreeSet<&str> = entries.iter().map(|e| e.field.response_key()).collect();
+                if keys.len() != 1 {
+                    self.err(
+                        Rule::SingleFieldSubscriptions,
+                        format!("subscription {op_name} must select exactly one root field"),
+                    );
+                }
+            }
+        }
+    }
+
+    fn selection_set(&mut self, set: &'a SelectionSet, parent: Option<&'a str>, usages: &mut Vec<VarUsage<'a>>) {
+        for sel in &set.items {
+            match sel {
+                Selection::Field(f) => self.field(f, parent, usages),
+                Selection::FragmentSpread(s) => {
+                    self.directives(&s.directives, "FRAGMENT_SPREAD", usages);
+                    match self.fragments.get(s.name.as_str()).copied() {
+                        None => self.err(Rule::KnownFragmentNames, format!("fragment {} is not defined", s.name)),
+                        Some(f) => {
+                            if let Some(p) = parent {
+                                if self.schema.is_composite(&f.type_condition) {
+                                    self.spread_possible(p, &f.type_condition, &format!("...{}", s.name));
+                                }
+                            }
+                        }
+                    }
+                }
+                Selection::InlineFragment(i) => {
+                    self.directives(&i.directives, "INLINE_FRAGMENT", usages);
+                    let inner = match &i.type_condition {
+                        None => parent,
+                        Some(tc) => {
+                            let t = self.type_condition(tc, "inline fragment");
+                            if let (Some(p), Some(t)) = (parent, t) {
+                                self.spread_possible(p, t, &format!("... on {t}"));
+                            }
+                            t
+                        }
+                    };
+                    self.selection_set(&i.selection_set, inner, usages);
+                }
+            }
+        }
+    }
+
+    /// 5.5.2.3
+    fn spread_possible(&mut self, parent: &str, fragment_type: &str, what: &str) {
+        let a = self.schema.possible_types(parent);
+        let b = self.schema.possible_types(fragment_type);
+        if a.intersection(&b).next().is_none() {
+            self.err(
+                Rule::PossibleFragmentSpreads,
+                format!("{what} can never apply inside type {parent} (no common possible type)"),
+            );
+        }
+    }
+
+    fn field(&mut self, f: &'a Field, parent: Option<&'a str>, usages: &mut Vec<VarUsage<'a>>) {
+        self.directives(&f.directives, "FIELD", usages);
+        let def: Option<&'a FieldDef> = match parent {
+            None => None,
+            Some(p) => {
+                let d = self.schema.field(p, &f.name);
+                if d.is_none() {
+                    // 5.3.1 (on a union only __typename can be selected, which `Schema::field` covers)
+                    self.err(Rule::FieldsOnCorrectType, format!("field {} does not exist on type {}", f.name, p));
+                }
+                d
+            }
+        };
+        let ctx = format!("{}.{}", parent.unwrap_or("?"), f.name);
+        self.arguments(&f.arguments, def.map(|d| d.args.as_slice()), &ctx, usages);
+        let child: Option<&'a str> = def.map(|d| d.ty.inner_name());
+        if let Some(d) = def {
+            // 5.3.3
+            let inner = d.ty.inner_name();
+            if self.schema.is_leaf(inner) {
+                if f.selection_set.is_some() {
+                    self.err(Rule::ScalarLeafs, format!("field {ctx} of leaf type {} must not have a selection set", d.ty));
+                }
+            } else if self.schema.is_composite(inner) && f.selection_set.is_none() {
+                self.err(Rule::ScalarLeafs, format!("field {ctx} of type {} must have a selection set", d.ty));
+            }
+        }
+        if let Some(s) = &f.selection_set {
+            let child = child.filter(|c| self.schema.is_composite(c));
+            self.selection_set(s, child, usages);
+        }
+    }
+
+    /// `defs == None`: the field or directive is unknown (only uniqueness and variable uses are
+    /// recorded).
+    fn arguments(
+        &mut self,
+        args: &'a [Argument],
+        defs: Option<&'a [InputValueDef]>,
+        ctx: &str,
+        usages: &mut Vec<VarUsage<'a>>,
+    ) {
+        let mut seen = BTreeSet::new();
+        for a in args {
+            // 5.4.2
+            if !seen.insert(a.name.as_str()) {
+                self.err(Rule::UniqueArgumentNames, format!("{ctx}: argument {} is given more than once", a.name));
+            }
+            match defs {
+                None => self.untyped_value(&a.value, &format!("{ctx}({}:)", a.name), usages),
+                Some(defs) => match defs.iter().find(|d| d.name == a.name) {
+                    // 5.4.1
+                    None => {
+                        self.err(Rule::KnownArgumentNames, format!("{ctx}: unknown argument {}", a.name));
+                        self.untyped_value(&a.value, &format!("{ctx}({}:)", a.name), usages);
+                    }
+                    Some(d) => {
+                        let c = format!("{ctx}({}:)", a.name);
+                        self.value_at(&a.value, &d.ty, d.default_value.is_some(), &c, usages);
+                    }
+                },
+            }
+        }
+        // 5.4.2.1
+        if let Some(defs) = defs {
+            for d in defs {
+                if d.ty.is_non_null() && d.default_value.is_none() && !args.iter().any(|a| a.name == d.name) {
+                    self.err(Rule::RequiredArguments, format!("{ctx}: required argument {} is missing", d.name));
+                }
+            }
+        }
+    }
+
+    fn directives(&mut self, ds: &'a [Directive], location: &str, usages: &mut Vec<VarUsage<'a>>) {
+        let mut seen = BTreeSet::new();
+        for d in ds {
+            let def = self.schema.directives.get(&d.name);
+            match def {
+                None => {
+                    self.err(Rule::KnownDirectives, format!("directive @{} is not defined", d.name));
+                    self.arguments(&d.arguments, None, &format!("@{}", d.name), usages);
+                }
+                Some(def) => {
+                    if !def.locations.iter().any(|l| l == location) {
+                        self.err(
+                            Rule::DirectiveLocations,
+                            format!("directive @{} is not allowed at location {location}", d.name),
+                        );
+                    }
+                    if !seen.insert(d.name.as_str()) && !def.repeatable {
+                        self.err(
+                            Rule::UniqueDirectivesPerLocation,
+                            format!("directive @{} is used more than once at one location", d.name),
+                        );
+                    }
+                    self.arguments(&d.arguments, Some(def.args.as_slice()), &format!("@{}", d.name), usages);
+                }
+            }
+        }
+    }
+
+    /// Record variable uses in a value whose expected type is unknown.
+    fn untyped_value(&mut self, v: &'a Value, ctx: &str, usages: &mut Vec<VarUsage<'a>>) {
+        match v {
+            Value::Variable(n) => usages.push(VarUsage {
+                name: n,
+                location_type: None,
+                location_has_default: false,
+                context: ctx.to_string(),
+            }),
+            Value::List(l) => l.iter().for_each(|x| self.untyped_value(x, ctx, usages)),
+            Value::Object(o) => {
+                let mut seen = BTreeSet::new();
+                for (n, x) in o {
+                    if !seen.insert(n.as_str()) {
+                        self.err(Rule::UniqueInputFieldNames, format!("{ctx}: input field {n} is given more than once"));
+                    }
+                    self.untyped_value(x, ctx, usages);
+                }
+            }
+            _ => {}
+        }
+    }
+
+    fn value_at(&mut self, v: &'a Value, ty: &Type, has_default: bool, ctx: &str, usages: &mut Vec<VarUsage<'a>>) {
+        self.value(v, ty, has_default, ctx, usages)
+    }
+
+    /// 5.6.1 Values of Correct Type: literal coercion of `v` to `ty` (section 3 input coercion
+    /// rules for literals). Variables are recorded as usages and checked by 5.8.5.
+    fn value(&mut self, v: &'a Value, ty: &Type, has_default: bool, ctx: &str, usages: &mut Vec<VarUsage<'a>>) {
+        if let Value::Variable(n) = v {
+            usages.push(VarUsage {
+                name: n,
+                location_type: Some(ty.clone()),
+                location_has_default: has_default,
+                context: ctx.to_string(),
+            });
+            return;
+        }
+        match ty {
+            Type::NonNull(inner) => {
+                if *v == Value::Null {
+                    self.err(Rule::ValuesOfCorrectType, format!("{ctx}: null given for non-null type {ty}"));
+                } else {
+                    self.value(v, inner, false, ctx, usages);
+                }
+            }
+            _ if *v == Value::Null => {}
+            Type::List(inner) => match v {
+                Value::List(items) => {
+                    for it in items {
+                        self.value(it, inner, false, ctx, usages);
+                    }
+                }
+                // a single item is coerced to a list of one item
+                other => self.value(other, inner, false, ctx, usages),
+            },
+            Type::Named(name) => self.named_value(v, name, ctx, usages),
+        }
+    }
+
+    fn named_value(&mut self, v: &'a Value, name: &str, ctx: &str, usages: &mut Vec<VarUsage<'a>>) {
+        let Some(t) = self.schema.get_type(name) else {
+            self.untyped_value(v, ctx, usages);
+            return;
+        };
+        let bad = |cx: &mut Cx<'a>, what: &str| {
+            cx.err(Rule::ValuesOfCorrectType, format!("{ctx}: {} is not a valid {what}", crate::printer::print_value(v)));
+        };
+        match t.kind {
+            TypeKind::Scalar => match name {
+                "Int" => match v {
+                    Value::Int(text) => {
+                        let ok = text.parse::<i64>().is_ok_and(|n| (-(1i64 << 31)..(1i64 << 31)).contains(&n));
+                        if !ok {
+                            bad(self, "Int (32-bit)");
+                        }
+                    }
+                    _ => bad(self, "Int"),
+                },
+                "Float" => {
+                    if !matches!(v, Value::Int(_) | Value::Float(_)) {
+                        bad(self, "Float");
+                    }
+                }
+                "String" => {
+                    if !matches!(v, Value::String(_)) {
+                        bad(self, "String");
+                    }
+                }
+                "Boolean" => {
+                    if !matches!(v, Value::Boolean(_)) {
+                        bad(self, "Boolean");
+                    }
+                }
+                "ID" => {
+                    if !matches!(v, Value::String(_) | Value::Int(_)) {
+                        bad(self, "ID");
+                    }
+                }
+                // custom scalar: any literal may be acceptable
+                _ => self.untyped_value(v, ctx, usages),
+            },
+            TypeKind::Enum => match v {
+                Value::Enum(e) if t.enum_values.iter().any(|x| x == e) => {}
+                _ => bad(self, &format!("value of enum {name}")),
+            },
+            TypeKind::InputObject => match v {
+                Value::Object(fields) => {
+                    let mut seen = BTreeSet::new();
+                    for (n, fv) in fields {
+                        if !seen.insert(n.as_str()) {
+                            self.err(
+                                Rule::UniqueInputFieldNames,
+                                format!("{ctx}: input field {n} is given more than once"),
+                            );
+                        }
+                        match t.input_field(n) {
+                            None => {
+                                self.err(
+                                    Rule::ValuesOfCorrectType,
+                                    format!("{ctx}: input type {name} has no field {n}"),
+                                );
+                                self.untyped_value(fv, ctx, usages);
+                            }
+                            Some(fd) => {
+                                let c = format!("{ctx}.{n}");
+                                let ty = fd.ty.clone();
+                                let has_default = fd.default_value.is_some();
+                                self.value(fv, &ty, has_default, &c, usages);
+                            }
+                        }
+                    }
+                    for fd in &t.input_fields {
+                        if fd.ty.is_non_null() && fd.default_value.is_none() && !fields.iter().any(|(n, _)| *n == fd.name)
+                        {
+                            self.err(
+                                Rule::ValuesOfCorrectType,
+                                format!("{ctx}: required input field {name}.{} is missing", fd.name),
+                            );
+                        }
+                    }
+                }
+                _ => bad(self, &format!("value of input type {name}")),
+            },
+            // output types in input positions are a schema error; nothing to check here
+            _ => self.untyped_value(v, ctx, usages),
+        }
+    }
+
+    // -----------------------------------------------------------------------------------------
+    // 5.5.2.2 fragment cycles
+    // -----------------------------------------------------------------------------------------
+    fn fragment_cycles(&mut self, defs: &[&'a FragmentDefinition]) {
+        // colour: 0 = unvisited, 1 = on the stack, 2 = done
+        let mut colour: BTreeMap<&str, u8> = BTreeMap::new();
+        for f in defs {
+            if colour.get(f.name.as_str()).copied().unwrap_or(0) == 0 {
+                // iterative DFS
+                let mut stack: Vec<(&'a str, Vec<&'a str>, usize)> =
+                    vec![(f.name.as_str(), spreads_in(&f.selection_set), 0)];
+                colour.insert(f.name.as_str(), 1);
+                while let Some((name, children, idx)) = stack.last_mut() {
+                    if *idx >= children.len() {
+                        colour.insert(*name, 2);
+                        stack.pop();
+                        continue;
+                    }
+                    let child = children[*idx];
+                    *idx += 1;
+                    match colour.get(child).copied().unwrap_or(0) {
+                        1 => {
+                            let n = name.to_string();
+                            self.err(
+                                Rule::NoFragmentCycles,
+                                format!("fragment {child} is spread within itself (via {n})"),
+                            );
+                        }
+                        0 => {
+                            if let Some(cf) = self.fragments.get(child).copied() {
+                                colour.insert(child, 1);
+                                stack.push((cf.name.as_str(), spreads_in(&cf.selection_set), 0));
+                            }
+                        }
+                        _ => {}
+                    }
+                }
+            }
+        }
+    }
+
+    // -----------------------------------------------------------------------------------------
+    // 5.3.2 Field Selection Merging
+    // -----------------------------------------------------------------------------------------
+
+    /// All fields of a selection set "including visiting fragments and inline fragments".
+    fn collect_entries(&self, set: &'a SelectionSet, parent: Option<&'a str>) -> Vec<Entry<'a>> {
+        let mut out = vec![];
+        let mut visited = BTreeSet::new();
+        self.collect_into(set, parent, &mut out, &mut visited);
+        out
+    }
+
+    fn collect_into(
+        &self,
+        set: &'a SelectionSet,
+        parent: Option<&'a str>,
+        out: &mut Vec<Entry<'a>>,
+        visited: &mut BTreeSet<&'a str>,
+    ) {
+        for sel in &set.items {
+            match sel {
+                Selection::Field(f) => {
+                    let def = parent.and_then(|p| self.schema.field(p, &f.name));
+                    out.push(Entry { parent, field: f, def });
+                }
+                Selection::FragmentSpread(s) => {
+                    if visited.insert(s.name.as_str()) {
+                        if let Some(fr) = self.fragments.get(s.name.as_str()).copied() {
+                            let p = Some(fr.type_condition.as_str()).filter(|t| self.schema.is_composite(t));
+                            self.collect_into(&fr.selection_set, p, out, visited);
+                        }
+                    }
+                }
+                Selection::InlineFragment(i) => {
+                    let p = match &i.type_condition {
+                        None => parent,
+                        Some(t) => Some(t.as_str()).filter(|t| self.schema.is_composite(t)),
+                    };
+                    self.collect_into(&i.selection_set, p, out, visited);
+                }
+            }
+        }
+    }
+
+    fn sub_entries(&self, e: &Entry<'a>) -> Vec<Entry<'a>> {
+        match &e.field.selection_set {
+            None => vec![],
+            Some(s) => {
+                let parent = e.def.map(|d| d.ty.inner_name()).filter(|t| self.schema.is_composite(t));
+                self.collect_entries(s, parent)
+            }
+        }
+    }
+
+    /// `FieldsInSetCanMerge(set)`
+    fn fields_in_set_can_merge(&mut self, entries: &[Entry<'a>], memo: &mut HashSet<(usize, usize, bool)>) {
+        let mut by_key: BTreeMap<&str, Vec<&Entry<'a>>> = BTreeMap::new();
+        for e in entries {
+            by_key.entry(e.field.response_key()).or_default().push(e);
+        }
+        // every selection set of the document is subject to the rule: descend into each field
+        for e in entries {
+            let p = e.field as *const Field as usize;
+            if e.field.selection_set.is_some() && memo.insert((p, p, true)) {
+                let sub = self.sub_entries(e);
+                self.fields_in_set_can_merge(&sub, memo);
+            }
+        }
+        for (key, group) in by_key {
+            for i in 0..group.len() {
+                for j in (i + 1)..group.len() {
+                    let (a, b) = (group[i], group[j]);
+                    if std::ptr::eq(a.field, b.field) {
+                        continue;
+                    }
+                    // "If the parent types of fieldA and fieldB are equal or if either is not an Object Type"
+                    let is_object = |p: Option<&str>| p.is_some_and(|p| self.schema.kind_of(p) == Some(TypeKind::Object));
+                    let same_parent_or_abstract = a.parent == b.parent || !is_object(a.parent) || !is_object(b.parent);
+                    self.pair(key, a, b, same_parent_or_abstract, memo);
+                }
+            }
+        }
+    }
+
+    fn pair(&mut self, key: &str, a: &Entry<'a>, b: &Entry<'a>, full: bool, memo: &mut HashSet<(usize, usize, bool)>) {
+        let (pa, pb) = (a.field as *const Field as usize, b.field as *const Field as usize);
+        let k = if pa <= pb { (pa, pb, full) } else { (pb, pa, full) };
+        if !memo.insert(k) {
+            return;
+        }
+        // SameResponseShape(fieldA, fieldB): the type part
+        if let (Some(da), Some(db)) = (a.def, b.def) {
+            if !self.same_shape_types(&da.ty, &db.ty) {
+                self.err(
+                    Rule::OverlappingFieldsCanBeMerged,
+                    format!("response key {key}: fields {} and {} have conflicting types {} and {}", a.field.name, b.field.name, da.ty, db.ty),
+                );
+                return;
+            }
+        }
+        if full {
+            if a.field.name != b.field.name {
+                self.err(
+                    Rule::OverlappingFieldsCanBeMerged,
+                    format!("response key {key}: {} and {} are different fields", a.field.name, b.field.name),
+                );
+                return;
+            }
+            if !same_arguments(&a.field.arguments, &b.field.arguments) {
+                self.err(
+                    Rule::OverlappingFieldsCanBeMerged,
+                    format!("response key {key}: field {} is selected with differing arguments", a.field.name),
+                );
+                return;
+            }
+        }
+        // merged set of both sub-selections
+        let mut merged = self.sub_entries(a);
+        merged.extend(self.sub_entries(b));
+        if merged.is_empty() {
+            return;
+        }
+        if full {
+            self.fields_in_set_can_merge(&merged, memo);
+        } else {
+            // only SameResponseShape applies to the sub-fields
+            let mut by_key: BTreeMap<&str, Vec<&Entry<'a>>> = BTreeMap::new();
+            for e in &merged {
+                by_key.entry(e.field.response_key()).or_default().push(e);
+            }
+            for (key, group) in by_key {
+                for i in 0..group.len() {
+                    for j in (i + 1)..group.len() {
+                        if !std::ptr::eq(group[i].field, group[j].field) {
+                            self.pair(key, group[i], group[j], false, memo);
+                        }
+                    }
+                }
+            }
+        }
+    }
+
+    /// The type comparison of `SameResponseShape`.
+    fn same_shape_types(&self, a: &Type, b: &Type) -> bool {
+        match (a, b) {
+            (Type::NonNull(x), Type::NonNull(y)) => self.same_shape_types(x, y),
+            (Type::NonNull(_), _) | (_, Type::NonNull(_)) => false,
+            (Type::List(x), Type::List(y)) => self.same_shape_types(x, y),
+            (Type::List(_), _) | (_, Type::List(_)) => false,
+            (Type::Named(x), Type::Named(y)) => {
+                if self.schema.is_leaf(x) || self.schema.is_leaf(y) {
+                    x == y
+                } else {
+                    // both composite (or unknown: nothing to say)
+                    true
+                }
+            }
+        }
+    }
+}
+
+fn same_arguments(a: &[Argument], b: &[Argument]) -> bool {
+    if a.len() != b.len() {
+        return false;
+    }
+    a.iter().all(|x| b.iter().any(|y| x.name == y.name && x.value == y.value))
+}
+
+/// Names of the fragments spread (directly, at any depth) in a selection set.
+fn spreads_in(set: &SelectionSet) -> Vec<&str> {
+    let mut out = vec![];
+    let mut stack = vec![set];
+    while let Some(s) = stack.pop() {
+        for sel in &s.items {
+            match sel {
+                Selection::Field(f) => {
+                    if let Some(s) = &f.selection_set {
+                        stack.push(s);
+                    }
+                }
+                Selection::FragmentSpread(sp) => out.push(sp.name.as_str()),
+                Selection::InlineFragment(i) => stack.push(&i.selection_set),
+            }
+        }
+    }
+    out
+}
+
+/// `IsVariableUsageAllowed(variableDefinition, variableUsage)` of 5.8.5.
+fn variable_usage_allowed(def: &VariableDefinition, location_type: &Type, location_has_default: bool) -> bool {
+    if let (Type::NonNull(loc_inner), false) = (location_type, def.ty.is_non_null()) {
+        let has_non_null_default = def.default_value.as_ref().is_some_and(|d| *d != Value::Null);
+        if !has_non_null_default && !location_has_default {
+            return false;
+        }
+        return types_compatible(&def.ty, loc_inner);
+    }
+    types_compatible(&def.ty, location_type)
+}
+
+/// `AreTypesCompatible(variableType, locationType)`
+fn types_compatible(var: &Type, loc: &Type) -> bool {
+    match (var, loc) {
+        (Type::NonNull(v), Type::NonNull(l)) => types_compatible(v, l),
+        (_, Type::NonNull(_)) => false,
+        (Type::NonNull(v), l) => types_compatible(v, l),
+        (Type::List(v), Type::List(l)) => types_compatible(v, l),
+        (_, Type::List(_)) | (Type::List(_), _) => false,
+        (Type::Named(v), Type::Named(l)) => v == l,
+    }
+}
